@@ -122,7 +122,9 @@ var c17Defects = []struct {
 }{
 	{"location_upstream_dangling", func(c *config.PikeConfig) { c.Locations[len(c.Locations)-1].Upstream = "nowhere" }},
 	{"location_upstream_dangling_first", func(c *config.PikeConfig) { c.Locations[0].Upstream = "nowhere" }},
-	{"server_location_dangling", func(c *config.PikeConfig) { c.Servers[len(c.Servers)-1].Locations = append(c.Servers[len(c.Servers)-1].Locations, "ghost") }},
+	{"server_location_dangling", func(c *config.PikeConfig) {
+		c.Servers[len(c.Servers)-1].Locations = append(c.Servers[len(c.Servers)-1].Locations, "ghost")
+	}},
 	{"server_location_dangling_first_pos", func(c *config.PikeConfig) {
 		c.Servers[0].Locations = append([]string{"ghost"}, c.Servers[0].Locations...)
 	}},
@@ -130,7 +132,10 @@ var c17Defects = []struct {
 	{"server_cache_dangling_first", func(c *config.PikeConfig) { c.Servers[0].Cache = "nocache" }},
 	{"server_compress_dangling", func(c *config.PikeConfig) { c.Servers[len(c.Servers)-1].Compress = "nocompress" }},
 	{"server_cache_empty", func(c *config.PikeConfig) { c.Servers[0].Cache = "" }},
-	{"name_too_long", func(c *config.PikeConfig) { c.Caches[0].Name = strings.Repeat("n", 21); c.Servers[0].Cache = c.Caches[0].Name }},
+	{"name_too_long", func(c *config.PikeConfig) {
+		c.Caches[0].Name = strings.Repeat("n", 21)
+		c.Servers[0].Cache = c.Caches[0].Name
+	}},
 	{"cache_size_zero", func(c *config.PikeConfig) { c.Caches[0].Size = 0 }},
 	{"cache_size_negative", func(c *config.PikeConfig) { c.Caches[0].Size = -5 }},
 	{"hit_for_pass_not_duration", func(c *config.PikeConfig) { c.Caches[0].HitForPass = "5 minutes" }},
